@@ -100,5 +100,11 @@ CHECKS["C13"] = (
     "Theorems: softmax probabilities are positive and sum to one, the categorical log-probability is the log of the selected entry and the entropy is -sum p ln p of the same probabilities; the Gaussian heads' std lies in [e^-20, e^2] for any raw log-variance, their log-probability is the sum over dimensions of ln N(a; mean, std), the per-dimension entropy is 0.5 ln(2 pi e std^2), a sample is mean + std*eps; greedy returns a first maximiser, epsilon 0 is greedy, epsilon 1 ignores the values, the DQN-family rule explores during warm-up / epsilon 1 and is greedy otherwise. All heads are run unbatched and with batch sizes 1-5 and action dimensions 1-3 on every run.",
     "Trusts: Coq kernel + standard-library real-number axioms; extraction, OCaml glue (libm), harness; TFP distributions and jax.random as executed; float32 tolerance 1e-4; log-probabilities compared only where (a-mean)/std is well conditioned in float32. The exploration probability of the training loops is sanity-checked, not proved.",
 )
+CHECKS["C16"] = (
+    "DESIGN.md §2 C16",
+    "Coq proof over R (recombination weights via monotonicity of ln; admissible learning rates of CMAESConfig.create; incumbent invariant over all evaluation sequences with an extended fitness type NaN/-inf/+inf/finite; stable-sort ranking = sorted permutation; mean = convex combination of the mu best; step-size factor <= e^0.6; covariance symmetric (both variants) and diagonal positive (default variant; active variant partial, under a bound on the negative rank-mu term); flat/unflatten round trips for every list of leaf shapes; CEM bounds, top-k elites, convex mean) + model/implementation correspondence on ask/tell histories, parameter round trips and CEM primitives",
+    "Theorems for all dimensions n >= 1 and population sizes >= 2, all fitness sequences including ties, +-inf and NaN, active and default updates, all lists of leaf shapes, all boxes / variances / population and elite sizes. The extracted model (float64 instance) is compared with CMAESConfig / CMAESState / set_evaluation_feedback / update_search_distribution, set_params / flat_params on 14 architectures (bitwise) and cem_sample / cem_update on every run; the property's own spec is evaluated on the implementation's outputs independently of the model.",
+    "Trusts: Coq kernel + the standard library's real-number axioms (Print Assumptions: ClassicalDedekindReals.sig_forall_dec, sig_not_dec, functional_extensionality_dep, Classical_Prop.classic; the two flat-parameter theorems are axiom-free); extraction, OCaml glue (libm exp/log/sqrt/pow in the float instance), Python harness. Oracles, not modelled: jnp.linalg.eigh (inv_sqrt), jax.random.multivariate_normal, jax.random.truncated_normal, nnx.state leaf order. PARTIAL: positivity of the variances under the ACTIVE covariance update is proved only under a bound on the negative rank-mu term that the code does not establish (C16_cov_diag_positive_active_partial; C16_active_entry_can_be_negative shows the bound is needed); on the implementation it is checked dynamically only. Float32 effects (symmetry up to rounding, ranking of float32(fitness)) are outside the real-number theorems.",
+)
 _PENDING = "check not built yet in this revision (planned: Coq model + correspondence, see DESIGN.md §2)"
 NOT_APPLICABLE = {f"C{i:02d}": _PENDING for i in range(1, 21) if f"C{i:02d}" not in CHECKS}
